@@ -57,6 +57,9 @@ class C08(Prop):
             c["ff"] = rng.choice((1, 2, 4))
         if api == "ts_down":
             c["tf"] = rng.choice((2, 3))
+        if "tf" in c and c["n"] < c["tf"]:        # a decimation factor larger than the range is refused by design
+            c["s"] = 0
+            c["n"] = min(N, max(c["n"], 2 * c["tf"]))
         if api == "chans":
             c["chans"] = rng.sample(range(C), 2)
         if api == "bands":
